@@ -5,7 +5,7 @@ import os
 # property -> rules deciding its structural clauses (DESIGN.md section 4)
 PROPS = {
     'C01': ['DISPATCH', 'ACDUAL', 'FINCHK', 'SYMIDX', 'ORDTOTAL', 'FRAMERESET', 'MERGE', 'CACHELIFE', 'SIBLING', 'ERASER', 'FORWARD', 'KEYFIELDS', 'QUEUEENDS', 'CLIOPT', 'FLAGRESET', 'DRAIN', 'INSETLABEL'],
-    'C02': ['UNIONCONTRIB', 'PRODUCT', 'WORKLIST', 'COW', 'FORWARD', 'UNIONTRANSL', 'ACCRET', 'SCRATCHRESET', 'NULLPARAM', 'TENTATIVE', 'REINDEXALL', 'ALPHASRC'],
+    'C02': ['UNIONCONTRIB', 'PRODUCT', 'WORKLIST', 'COW', 'FORWARD', 'UNIONTRANSL', 'ACCRET', 'SCRATCHRESET', 'NULLPARAM', 'TENTATIVE', 'REINDEXALL', 'ALPHASRC', 'DRAIN'],
     'C03': ['SIZEEQ', 'WORKLIST', 'DRAIN', 'COW', 'FORWARD', 'COUNTGUARD', 'USEMOVE', 'ACCRET', 'KEPTRULES', 'COLLECTALL', 'ALPHASRC'],
     'C04': ['KIND', 'SIMMAP', 'COPYALL', 'LOOPBOUND', 'TUPLEPOS', 'FORWARD', 'KEYFIELDS', 'CLIOPT', 'INSETLABEL', 'PREPASS', 'USEDSTATES', 'REFSTABLE'],
     'C05': ['SIMMAP', 'KIND', 'LOOPBOUND', 'DRAIN', 'WORKLIST', 'SIZEEQ', 'COW', 'FORWARD', 'ACCRET', 'INSETLABEL', 'COPYALL', 'USEDSTATES', 'ALPHASRC'],
@@ -49,7 +49,7 @@ FILTER = {
     ('C17', 'TEXT'): r'sym_var_asgn', ('C13', 'TEXT'): r'timbuk|loadable|convert|aut_core|sym_var',
     ('C15', 'FINCHK'): r'explicit_tree', ('C15', 'WORKLIST'): r'explicit_tree_candidate|explicit_tree_unreach', ('C15', 'DRAIN'): r'explicit_tree_candidate|explicit_tree_unreach',
     ('C15', 'KIND'): r'explicit_tree_candidate', ('C15', 'HASHCONS'): r'explicit_tree_candidate', ('C15', 'COW'): r'explicit_tree_candidate|explicit_tree_unreach',
-    ('C03', 'DRAIN'): r'explicit_tree', ('C01', 'DRAIN'): r'explicit_tree_incl|down_tree_', ('C07', 'DRAIN'): r'up_tree_incl|down_tree_|tree_incl|bdd_.*incl', ('C09', 'DRAIN'): r'explicit_finite.*fctor|explicit_finite_incl|congr', ('C13', 'DRAIN'): r'aut_core\.hh|loadable|timbuk', ('C08', 'DRAIN'): r'bdd_', ('C10', 'DRAIN'): r'explicit_finite',
+    ('C03', 'DRAIN'): r'explicit_tree', ('C02', 'DRAIN'): r'explicit_tree_(isect|union)', ('C01', 'DRAIN'): r'explicit_tree_incl|down_tree_', ('C07', 'DRAIN'): r'up_tree_incl|down_tree_|tree_incl|bdd_.*incl', ('C09', 'DRAIN'): r'explicit_finite.*fctor|explicit_finite_incl|congr', ('C13', 'DRAIN'): r'aut_core\.hh|loadable|timbuk', ('C08', 'DRAIN'): r'bdd_', ('C10', 'DRAIN'): r'explicit_finite',
     ('C10', 'PARAMPATH'): r'explicit_finite', ('C12', 'PARAMPATH'): r'explicit_tree',
     ('C05', 'DRAIN'): r'explicit_tree', ('C05', 'WORKLIST'): r'explicit_tree_unreach', ('C05', 'SIZEEQ'): r'explicit_tree',
     ('C01', 'CACHELIFE'): r'explicit_tree|tree_incl_down|down_tree_|util/cache', ('C07', 'CACHELIFE'): r'tree_incl_down|util/cache', ('C11', 'CACHELIFE'): r'util/cache',
